@@ -308,3 +308,63 @@ func VerifH_C10_comparatorColumns() {
 	vAssert(sign(got) == ref, "the comparator orders rows by the sorting columns, with direction and null placement")
 	vCover("compared")
 }
+
+// C10.K4b: a Buffer sorted by several columns agrees with Schema.Comparator for
+// the same columns: after sort.Sort every adjacent pair of rows is in
+// comparator order (nulls of any depth are equal for the first key, so the
+// second key must break the tie), and the rows are a permutation of the input.
+func VerifH_C10_bufferMultiColumnSort() {
+	vUnwind(64)
+	schema := NewSchema("s", Group{
+		"g": Optional(Group{"x": Optional(Leaf(Int64Type))}),
+		"k": Leaf(Int64Type),
+	})
+	nullsFirst := vChoose("nullsFirst", 0, 1) == 1
+	var sx SortingColumn = Ascending("g", "x")
+	if nullsFirst {
+		sx = NullsFirst(sx)
+	}
+	sorting := []SortingColumn{sx, Ascending("k")}
+	buf := NewBuffer(schema, SortingRowGroupConfig(SortingColumns(sorting...)))
+	cmp := schema.Comparator(sorting...)
+	n := vChoose("rows", 2, 3)
+	in := make([]Row, n)
+	for i := range in {
+		def := vChoose("xDef", 0, 2)
+		var x Value
+		if def == 2 {
+			x = makeValueInt64(int64(vI8("x"))).Level(0, 2, 0)
+		} else {
+			x = Value{}.Level(0, def, 0)
+		}
+		// k = key<<4 | i makes every row distinct
+		k := makeValueInt64(int64(vI8("k"))<<4 | int64(i)).Level(0, 0, 1)
+		in[i] = Row{x, k}
+	}
+	for _, r := range in {
+		if _, err := buf.WriteRows([]Row{r.Clone()}); err != nil {
+			vAssert(false, "buffer accepts the rows")
+			return
+		}
+	}
+	sort.Sort(buf)
+	out := make([]Row, n)
+	rr := buf.Rows()
+	defer rr.Close()
+	got, err := rr.ReadRows(out)
+	vAssert(got == n && (err == nil || err == io.EOF), "all rows are read back")
+	if got != n {
+		return
+	}
+	for i := 0; i+1 < n; i++ {
+		vAssert(cmp(out[i], out[i+1]) <= 0, "sorted buffer order agrees with Schema.Comparator for the same sorting columns")
+	}
+	for i := range in {
+		hit := []bool{}
+		for j := range out {
+			hit = append(hit, out[j][1].Int64() == in[i][1].Int64() && out[j][0].definitionLevel == in[i][0].definitionLevel && (in[i][0].IsNull() || out[j][0].Int64() == in[i][0].Int64()))
+		}
+		vAssert(vAny(hit...), "every written row is present intact after sorting")
+	}
+	vCover("sorted")
+}
